@@ -32,3 +32,10 @@ Canonical tadd_muloid := Monoid.MulLaw tadd0x taddx0.
 Canonical tmin_addoid := Monoid.AddLaw taddDl taddDr.
 
 Check (@dp_total_spec (option nat) None tadd_muloid tmin_addoid).
+
+(* tadd as a commutative monoid with unit Some 0 (products over columns, used by C01) *)
+Lemma taddC : commutative tadd. Proof. by move=> [a|] [b|] //=; rewrite addnC. Qed.
+Lemma tadd1x : left_id (Some 0) tadd. Proof. by case. Qed.
+Lemma taddx1 : right_id (Some 0) tadd. Proof. by case=> //= a; rewrite addn0. Qed.
+Canonical tadd_monoid := Monoid.Law taddA tadd1x taddx1.
+Canonical tadd_comoid := Monoid.ComLaw taddC.
